@@ -121,3 +121,14 @@ func Harness_C17_generic_twice() {
 	verifAssert(h.E0 == s && h.E1 == a, "t_head_twice")
 	verifCover("end")
 }
+
+func Harness_C17_operator_chains() {
+	a, b := verifInt("a"), verifInt("b")
+	p := verifBool("p")
+	verifAssert(t_ops1(a, b, p) == (p && a != b), "t_ops1: <> binds tighter than &&")
+	verifAssert(t_ops2(a, b, p) == (p || a == b), "t_ops2: = binds tighter than ||")
+	verifAssert(t_ops3(a, b, p) == (a == b && p), "t_ops3: = on the left of &&")
+	verifAssert(t_ops4(a, b) == a-b-a+b+b, "t_ops4: + and - associate to the left")
+	verifAssert(t_ops5(a, b) == (a+1 > b-1), "t_ops5: arithmetic binds tighter than comparison")
+	verifCover("end")
+}
